@@ -533,6 +533,8 @@ def _forward_names(f, local):
 def run(ctx, led):
     run_rule(led, "F1", "STALE-INDEX: no index computed before swap_remove/remove is used on the same "
              "vector afterwards without re-validation", f1, ctx)
+    from . import shared
+    run_rule(led, "F1b", "SWAP-REMOVE-SKIP: no element skipped after swap_remove in an index loop", shared.swap_remove_skip, ctx)
     run_rule(led, "F2", "no narrowing `as` cast of a model integer in the FlatZinc front-end", f2, ctx)
     run_rule(led, "F3", "builtin name → library constructor TABLE (recovered from the str match), "
              "plain/_reif agreement, diagnostic names", f3, ctx)
